@@ -31,7 +31,7 @@ def b8_eq_num(c, v, t):
 # ======================================================================================
 class ReadDataHeader(Spec):
     func = 'ZODB.FileStorage.format:FileStorageFormatter._read_data_header'
-    props = ('C04', 'C01', 'C06', 'C17')
+    props = ('C04', 'C01', 'C06', 'C17', 'C07')
     cases = ('self-file', 'self-file-oid', 'given-file-oid', 'given-file')
 
     def setup(self, c, case=None):
@@ -105,7 +105,7 @@ class ReadDataHeader(Spec):
 # ======================================================================================
 class ReadTxnHeader(Spec):
     func = 'ZODB.FileStorage.format:FileStorageFormatter._read_txn_header'
-    props = ('C04', 'C09', 'C06', 'C17')
+    props = ('C04', 'C09', 'C06', 'C17', 'C07')
     cases = ('no-tid', 'tid')
 
     def setup(self, c, case=None):
@@ -163,9 +163,22 @@ class ReadTxnHeader(Spec):
                 ('ext', slice_is(c, hf.get('ext'), arr, pos + 23 + ulen + dlen, elen)),
                 ('file-position', f1['pos'] == pos + 23 + ulen + dlen + elen),
             ]
+        got = z3.If(avail > 0, avail, 0)
+
+        def mk_short(c, E):
+            # the exception carries what was read and where (callers test err.buf / err.pos)
+            return VExc(M.CorruptedDataError, [], {'oid': tid, 'buf': VBytes([('a', arr, pos, got)]),
+                                                   'pos': VInt(pos)})
+
+        def post_short(c, E, x):
+            if not isinstance(x, VExc):
+                return [('raises', False)]
+            return [('buf-is-the-short-read', slice_is(c, x.attrs.get('buf'), arr, pos, got)),
+                    ('pos', field_eq(c, x.attrs.get('pos'), pos))]
         return [
             Outcome('negative-seek', 'raise', OSError_, guard=pos < 0),
-            Outcome('short', 'raise', M.CorruptedDataError, guard=z3.And(pos >= 0, avail < 23)),
+            Outcome('short', 'raise', M.CorruptedDataError, guard=z3.And(pos >= 0, avail < 23),
+                    result=mk_short, post=post_short),
             Outcome('non-ascii-status', 'raise', 'builtins:UnicodeDecodeError',
                     guard=z3.And(full, z3.Not(ascii_ok))),
             Outcome('tid-mismatch', 'raise', M.CorruptedDataError,
